@@ -46,6 +46,8 @@ checks = {
    text="Real packages (two depths, helpers in test/non-test files and a sub-package, closures, goroutines, odd subtest names) x option sets x five entry points x three launch modes; the set of created files must equal the location function's set and the report footer must resolve to the same file. Exploration.", note=TB_B),
  "C20": dict(engine="B", technique="runtime monitor: exactly-once outcome classifier per call + conservation check between event-log tallies and Clean's printed totals/lists; -race builds in the thorough tier", design="§5 C20",
    text="Real processes with mixed outcomes (changed values, new slots, Update options, skips, parallel subtests, calls from goroutines, -count) followed by Clean in every mode; each call must classify to exactly one outcome and the summary totals and obsolete lists must equal the log's tallies and the stale oracle. Exploration.", note=TB_B),
+ "C06": dict(engine="C", technique="runtime monitor: token scheduler over AST-inserted yield points (recorded, replayable grant lists; PCT/random/two-cut/site-cut strategies) + porcupine linearizability check of call/return history with final reads + Go race detector on free-running stress with seeded delays", design="§5 C06",
+   text="The current sources of package snaps are instrumented at check time so every file-system and lock operation is a yield point; a controller runs one task at a time under seeded and targeted schedules, the client-boundary history plus one final read per slot is checked by porcupine against a sequential slot-store model, the final file by the independent reader, and a -race build of the same workloads runs unscheduled with injected delays. Exploration over schedules (recorded), not exhaustive.", note=TB_C),
 }
 
 PENDING = {}
